@@ -40,7 +40,7 @@ def correspond(ctx):
         if not r_["success"]:
             c.mismatches.append({"kind": "traced-run-failed", "run": r_})
     days = [x for x in tcases if x["k"] == "day"]
-    cases = cases + [x for x in tcases if x["k"] == "water"]
+    cases = [x for x in cases if x["k"] == "water"] + [x for x in tcases if x["k"] == "water"]
     waterlib.eval_water_cases(ctx, c, cases)
     waterlib.eval_steps_cases(ctx, c, [x for x in tcases if x["k"] == "steps"])
     ctx.extra["traced_runs"] = len(runs)
